@@ -15,6 +15,11 @@ func c05World(c *runner.Ctx) (*gen.World, string, error) {
 		w, err := gen.GenWorld(r, c.TmpDir, fmt.Sprintf("w%d", c.Idx), gen.WorldOpts{Jumbo: true})
 		return w, "jumbo", err
 	}
+	if c.Idx%150 == 1 { // a segment of exactly 1023 / 1024 / 1025 / 2048 documents with a term in every document, adaptive chunking
+		n := []int{1024, 1023, 1025, 2048}[(c.Idx/150)%4]
+		w, err := gen.GenWorld(r, c.TmpDir, fmt.Sprintf("w%d", c.Idx), gen.WorldOpts{Jumbo: true, JumboN: n, Bases: 2})
+		return w, "jumbo", err
+	}
 	o := gen.WorldOpts{MaxDocs: 60, MinDocs: 4}
 	if r.Intn(5) > 0 {
 		o.FixedMode = []uint32{1, 2, 3, 5, 7}[r.Intn(5)]
